@@ -30,6 +30,7 @@ type c18Op struct {
 	Aux   *c18T // Symlink/Link: what the link points to; Rename: the source
 	Data  ssa.Value
 	idx   int
+	Excl  bool       // create-or-fail flavour of a write-kind call (os.OpenFile with O_CREATE|O_EXCL)
 	vdir  *c18T      // display only: the term of the version directory, abbreviated in constructs
 	Fr    *c18Frame  // the expanded frame the call sits in
 	Nodes []*c18Node // its instances in the graph
@@ -159,7 +160,7 @@ func c18CollectOps(p *Prog, tt *c18Terms, fn *ssa.Function) (ops []*c18Op, unkno
 				unknown = append(unknown, full+" in a defer/go statement")
 				return
 			}
-			op := &c18Op{Call: call, Fn: full, Kind: m.kind, Path: tt.Term(call.Call.Args[m.path])}
+			op := &c18Op{Call: call, Fn: full, Kind: m.kind, Excl: c18OpKind(p, full, m.kind, call) == c18CreateExcl && m.kind != c18CreateExcl, Path: tt.Term(call.Call.Args[m.path])}
 			if m.aux >= 0 {
 				op.Aux = tt.Term(call.Call.Args[m.aux])
 			}
@@ -174,7 +175,7 @@ func c18CollectOps(p *Prog, tt *c18Terms, fn *ssa.Function) (ops []*c18Op, unkno
 		switch {
 		case pkg == "os" && sig.Recv() == nil && !c18ReadOnly[obj.Name()]:
 			unknown = append(unknown, full)
-		case pkg == "os" && sig.Recv() != nil && typeBaseName(sig.Recv().Type()) == "File":
+		case pkg == "os" && sig.Recv() != nil && typeBaseName(sig.Recv().Type()) == "File" && !c18FileHarmless[obj.Name()]:
 			unknown = append(unknown, full)
 		case pkg == "syscall" || pkg == "golang.org/x/sys/unix" || pkg == "os/exec" || pkg == "io/ioutil":
 			unknown = append(unknown, full)
@@ -289,6 +290,20 @@ func (cfg *c18Cfg) isPrev(t *c18T) bool {
 	}
 	return t.String() == "*F("+cfg.Prev+")"
 }
+
+// isSibling: target + "<suffix without separator>": a file next to the target (lock, marker, staging).
+func (cfg *c18Cfg) isSibling(t *c18T) bool {
+	if t.Op != "cat" || len(t.Args) < 2 || t.Args[0].String() != cfg.targetTerm() {
+		return false
+	}
+	for _, a := range t.Args[1:] {
+		if a.Op != "lit" || strings.Contains(a.Lit, "/") || a.Lit == "" {
+			return false
+		}
+	}
+	return true
+}
+
 func (cfg *c18Cfg) isBase(t *c18T) bool {
 	if cfg.resolved {
 		return t.String() == "Dir("+cfg.targetStr+")"
